@@ -1172,7 +1172,9 @@ def _cut_consistent(tabs):
         for t in tabs:
             rows = _table_rows(t) if t not in ("-", "panic") else None
             for r in rows or []:
-                c = r[col].replace("\n", " ").strip()
+                if "\n" in r[col]:
+                    continue        # a text with line breaks spreads over several lines of the table: not measured
+                c = r[col].strip()
                 if c.endswith("…"):
                     cut.append(max(len(c), _disp_width(c)))
                 elif c:
